@@ -173,7 +173,7 @@ def contracts():
         for fn in ('delete_keys_seq', 'delete_keys'):
             c(fn, name='collections.%s/%d' % (fn, n),
               params=dict(d=MMAP, keys=tuple_of(TVal, n), x=TVal),
-              ensures=['result is not d',
+              ensures=['result is not d', 'isinstance(result, "FrozenDict")',
                        '(x in result) == ((x in OLD_d) and not (%s))' % gone,
                        'implies(x in result, result[x] == OLD_d[x])',
                        # the (possibly host-owned, mutable) operand is intact
